@@ -3,6 +3,7 @@ CONSTANTS Urls <- UrlsC
           Cfgs <- OneCfg
           RebuildOnlyIfChanged = FALSE
           FirstOfBatch = FALSE
+          PullOnNull = TRUE
           IdentsAccumulate = FALSE
           ForgetIdentRecord = TRUE
           ConfigRebuilds = TRUE
